@@ -50,11 +50,11 @@ CLAIMS = {
          "a machine answered during the round; two or more distinct signallers reach every index exactly once; the delivery list never contains a duplicate "
          "and no pending signal survives the call. The log is tied to the code by the hook log comparison.", "DESIGN.md section 4, C09"),
 
- "C10": ("PARTIAL. Proved: C10_step_frame / C10_decrement_frame (a step of machine j leaves runtime and pending action of every other machine and all "
-         "accounting fields untouched) and C10_accounting_projection (machine i's counters and the shared accounting are the same function of the reports in the "
-         "combined run and in the solo run on the projected history, for every history). Not proved: equality of the action streams (needs a two-run simulation "
-         "over transition); that statement is decided by the differential: deterministic machines next to arbitrary neighbours vs alone, implementation and model, "
-         "action streams compared call by call.", "DESIGN.md section 4, C10"),
+ "C10": ("Theorem C10_solo: for EVERY configuration, every position i whose machine samples deterministically (probability-1 vectors, constant distributions) and every neighbour set "
+         "without signal transitions (neighbours otherwise arbitrary and probabilistic), every history, start time and every PAIR of random tapes: the actions returned for machine i in the "
+         "combined run equal, call by call, the actions of the machine running alone on the projected history (events addressed to neighbours mapped to an unknown id), up to its id; "
+         "C10_solo_total: both runs exist for valid configurations. Two-run simulation over transition (induction on fuel), built on the frame lemmas C10_step_frame / C10_decrement_frame "
+         "and the accounting projection. The differential runs deterministic machines next to arbitrary neighbours and alone, on the implementation and on the model.", "DESIGN.md section 0 and 4, C10"),
 
  "C12": ("Theorems C12_sound (validate_machine m = true -> WF_machine m, WF stated over real numbers from the documentation: fractions real in [0,1], "
          "probabilities real in (0,1], f32 sums in (0,1], targets in range without duplicates, distribution parameters in their documented domains), "
